@@ -69,11 +69,11 @@ PROPS["C02"] = {
     "rule": "cases = rule sets with 0..4 tracer / disruptive rules per phase (deny, drop, redirect, block with and without SecDefaultAction, "
             "several disruptive actions in one rule, optional ctl:ruleEngine switch as last rule of a phase) x engine On|DetectionOnly|Off x "
             "request switching conditions x API-call script (canonical, or mutated by repeating / skipping / swapping calls and extra body "
-            "writes, <=16 calls); oracle = history invariants I1-I5 plus the reference evaluator for canonical scripts; non-trivial = a "
+            "writes, <=16 calls; in a quarter of the cases 1-4 further phase / body calls after the logging phase); oracle = history invariants I1-I5 plus the reference evaluator for canonical scripts; non-trivial = a "
             "disruptive rule fired and (the script is anomalous or the rule was not the first to fire); distinct = distinct case encodings",
     "essential": {"all": ["anomalous-script", "canonical-script", "limit-reject-configured", "interrupted-by-body-limit", "engine:DetectionOnly", "engine:Off", "disruptive-fired:deny",
                           "disruptive-fired:drop", "disruptive-fired:redirect", "block-inherits-default", "ctl-ruleEngine-switch",
-                          "phase5-after-interruption", "detectiononly+reject-configured", "after-another-transaction"]},
+                          "phase5-after-interruption", "detectiononly+reject-configured", "after-another-transaction", "phase-calls-after-logging"]},
     "assumptions": COMMON_ASSUME + [
         "ctl:ruleEngine switches are generated only as the last rule of a phase (mid-phase behaviour is not stated by the property)",
         "body limits are far above the generated body sizes (C10 owns limit interruptions)",
